@@ -224,6 +224,20 @@ def recvPattern (role : Role) (H : Hdr) (script : List H3.FS.Ev) : Trace :=
     { head := .head b, body := q.1, trailers := q.2.1, env := q.2.2 }
   | r => { head := r, env := p.2.env }
 
+/-! ### the calls of the receive API, one poll each -/
+
+inductive RCall where
+  | head (role : Role)
+  | data
+  | trailers
+deriving Repr, DecidableEq
+
+/-- one poll of a call -/
+def RCall.poll (H : Hdr) : RCall → St FSt → Res × St FSt
+  | .head role => pollHead role fsSrc H
+  | .data => fun x => pollRecvData fsSrc (fsFuel x.src) x
+  | .trailers => pollRecvTrailers fsSrc H
+
 /-! ### QPACK and header validation plugged into the receive model -/
 
 def classOf {α : Type} : Headers.Res α → HClass
@@ -293,8 +307,8 @@ structure Delivered where
   env : Env
 deriving Repr, DecidableEq
 
-def deliver (H : Http) (role : Role) (max : Nat) (script : List H3.FS.Ev) : Delivered :=
-  let t := recvPattern role (hdrOf H role max) script
+/-- what the application has in hand, decoded from the answers of its calls -/
+def deliverOf (H : Http) (role : Role) (max : Nat) (t : Trace) : Delivered :=
   { head := match t.head with
       | .head b => decodeHead H role max b
       | _ => none
@@ -306,6 +320,9 @@ def deliver (H : Http) (role : Role) (max : Nat) (script : List H3.FS.Ev) : Deli
       | some .noTrailers => some none
       | _ => none
     env := t.env }
+
+def deliver (H : Http) (role : Role) (max : Nat) (script : List H3.FS.Ev) : Delivered :=
+  deliverOf H role max (recvPattern role (hdrOf H role max) script)
 
 /-- a transport that delivers `w` in chunks of `k ≥ 1` bytes and then FIN -/
 def chunksOf (k : Nat) : Nat → Bytes → List H3.FS.Ev
@@ -331,5 +348,8 @@ structure HttpRoundTrip (H : Http) : Prop where
   /-- scheme + authority + path-and-query, each a value of the crate, always build -/
   uri_builds : ∀ s a p, H.parseScheme s = some s → H.parseAuthority a = some a →
     H.parsePath p = some p → (H.uriBuild (some s) a (some p)).isSome = true
+  /-- an authority alone (the target of a plain CONNECT, RFC 9114 §4.4: neither `:scheme` nor `:path`)
+      builds too: `Uri::builder().authority(a).build()` is the authority-form URI -/
+  uri_builds_authority : ∀ a, H.parseAuthority a = some a → (H.uriBuild none a none).isSome = true
 
 end H3.E2E
